@@ -637,6 +637,112 @@ theorem take_slice_drop (l : Bytes) (A B : Nat) (h : A ≤ B) :
   rw [e, e2, List.take_append_drop, List.take_append_drop]
 
 
+theorem recordUpdate_fresh (ud : UpdateData) (sh : Nat) (en : Entry) (h : sh ∉ ud.map (·.1)) :
+    recordUpdate ud sh en = ud ++ [(sh, [en])] := by
+  induction ud with
+  | nil => rfl
+  | cons p rest ih =>
+    obtain ⟨sh', es⟩ := p
+    simp only [List.map_cons, List.mem_cons, not_or] at h
+    simp only [recordUpdate, if_neg (Ne.symm h.1), ih h.2, List.cons_append]
+
+theorem foldl_record_fresh (en : Entry) :
+    ∀ (shares : List Nat) (ud : UpdateData), shares.Nodup → (∀ sh ∈ shares, sh ∉ ud.map (·.1)) →
+      shares.foldl (fun ud sh => recordUpdate ud sh en) ud = ud ++ shares.map (fun sh => (sh, [en])) := by
+  intro shares
+  induction shares with
+  | nil => intro ud _ _; simp
+  | cons sh rest ih =>
+    intro ud hnd hdis
+    rw [List.nodup_cons] at hnd
+    simp only [List.foldl_cons]
+    rw [recordUpdate_fresh ud sh en (hdis sh List.mem_cons_self), ih _ hnd.2]
+    · simp
+    · intro x hx
+      simp only [List.map_append, List.map_cons, List.map_nil, List.mem_append, List.mem_singleton, not_or]
+      exact ⟨hdis x (List.mem_cons_of_mem _ hx), fun h => hnd.1 (h ▸ hx)⟩
+
+theorem servermapUpdateData_some (shares : List Nat) (numSegs ver s : Nat) (e : Int) (en : Entry)
+    (hf : (fetchShare numSegs ver s e).bind gotUpdateResults = some en) (hnd : shares.Nodup) :
+    servermapUpdateData shares numSegs ver s e [] = shares.map (fun sh => (sh, [en])) := by
+  simp only [servermapUpdateData, hf]
+  simpa using foldl_record_fresh en shares [] hnd (by simp)
+
+theorem servermapUpdateData_none (shares : List Nat) (numSegs ver s : Nat) (e : Int)
+    (hf : (fetchShare numSegs ver s e).bind gotUpdateResults = none) :
+    servermapUpdateData shares numSegs ver s e [] = [] := by
+  simp only [servermapUpdateData, hf]
+  induction shares with
+  | nil => rfl
+  | cons _ _ ih => simpa using ih
+
+theorem boundaryMaps_single (v : Item) (bh S E : Item) :
+    ∀ shares : List Nat,
+      boundaryMaps v (shares.map (fun sh => (sh, [(v, (bh, S, E))])))
+        = .ok (shares.map (fun sh => (sh, S)), shares.map (fun sh => (sh, E))) := by
+  intro shares
+  induction shares with
+  | nil => rfl
+  | cons sh rest ih =>
+    simp only [List.map_cons, boundaryMaps, selectDatum, List.filter_cons, decide_true, if_true,
+      List.filter_nil, List.map_nil, List.all_nil, ih]
+
+theorem decodeFetched_blocks (content : Bytes) (seg k : Nat) (shares : List Nat) (i : Nat)
+    (hne : shares ≠ []) (hk : k ≤ shares.length) :
+    decodeFetched content seg k (shares.map (fun sh => (sh, Item.block (i : Int)))) (i : Int)
+      = .ok (decodeBlocks content seg k i) := by
+  cases shares with
+  | nil => exact absurd rfl hne
+  | cons sh rest =>
+    simp only [List.map_cons, decodeFetched, List.length_cons, List.length_map]
+    rw [if_neg (by simp only [List.length_cons] at hk; omega), if_neg (by omega)]
+    simp only [Int.toNat_natCast, decodeBlocks]
+
+theorem decodeFetched_end (content : Bytes) (seg k : Nat) (shares : List Nat) (e : Int)
+    (hne : shares ≠ []) (hk : k ≤ shares.length) :
+    decodeFetched content seg k (shares.map (fun sh => (sh, Item.block e))) e
+      = .ok (if e < 0 then [] else decodeBlocks content seg k e.toNat) := by
+  by_cases he : e < 0
+  · cases shares with
+    | nil => exact absurd rfl hne
+    | cons sh rest =>
+      simp only [List.map_cons, decodeFetched, List.length_cons, List.length_map]
+      rw [if_neg (by simp only [List.length_cons] at hk; omega), if_pos (Or.inl he), if_pos he]
+  · have : e = ((e.toNat : Nat) : Int) := by omega
+    rw [if_neg he]
+    rw [this, decodeFetched_blocks content seg k shares e.toNat hne hk, Int.toNat_natCast]
+
+/-- the servermap-to-Retrieve step gives the updater its two boundary segments, start first -/
+theorem boundarySegmentsFrom_spec (shares : List Nat) (content : Bytes) (seg k s : Nat) (e : Int)
+    (hnd : shares.Nodup) (hk0 : 0 < k) (hk : k ≤ shares.length) :
+    boundarySegmentsFrom shares content seg k s e
+      = if content.length = 0 then .error .assertion
+        else if ¬ (s < numSegments content.length seg ∧ e < (numSegments content.length seg : Int)) then .error .index
+        else .ok (decodeBlocks content seg k s, if e < 0 then [] else decodeBlocks content seg k e.toNat) := by
+  have hne : shares ≠ [] := by intro h; subst h; simp at hk; omega
+  by_cases hfetch : s < numSegments content.length seg ∧ e < (numSegments content.length seg : Int)
+  · have hf : (fetchShare (numSegments content.length seg) 0 s e).bind gotUpdateResults
+        = some (Item.verinfo 0, (Item.blockhashes, Item.block s, Item.block e)) := by
+      simp only [fetchShare]
+      rw [if_neg (by omega)]; rfl
+    simp only [boundarySegmentsFrom, boundarySegmentsOf, servermapUpdateData_some shares _ 0 s e _ hf hnd, boundaryMaps_single,
+      decodeFetched_blocks content seg k shares s hne hk, decodeFetched_end content seg k shares e hne hk]
+    by_cases h0 : content.length = 0
+    · simp [h0]
+    · simp [h0, hfetch]
+  · have hf : (fetchShare (numSegments content.length seg) 0 s e).bind gotUpdateResults = none := by
+      simp only [fetchShare]
+      rw [if_pos (by omega)]; rfl
+    simp only [boundarySegmentsFrom, boundarySegmentsOf, servermapUpdateData_none shares _ 0 s e hf, boundaryMaps, decodeFetched]
+    by_cases h0 : content.length = 0
+    · simp [h0]
+    · simp [h0, hfetch]
+
+theorem boundarySegmentsFrom_nil (content : Bytes) (seg k s : Nat) (e : Int) :
+    boundarySegmentsFrom [] content seg k s e
+      = if content.length = 0 then .error .assertion else .error .index := by
+  simp only [boundarySegmentsFrom, boundarySegmentsOf, servermapUpdateData, List.foldl_nil, boundaryMaps, decodeFetched]
+
 /-- **The updater and the publisher agree.**  With `start_segment`/`end_segment` as
     `_do_update_update` computes them (the two old segments handed to TransformingUploadable) and
     `end_segment` as `Publish.setup_encoding_parameters` computes it (the number `c` of segments pushed),
@@ -797,8 +903,35 @@ theorem mdmfUpdate_splice (cfg : Cfg) (v : Version) (off : Nat) (data : Bytes)
     · simp only [hX, if_false]
       have hnn : ¬ (((off / seg : Nat)) : Int) < 0 := Int.not_lt.mpr (Int.natCast_nonneg _)
       rw [if_neg hnn, if_neg hnn, Int.toNat_natCast, hdS]
+  -- the servermap-to-Retrieve step delivers them, start first
+  have hEn : (if off + data.length < old.length then (((off + data.length : Nat) : Int) - 1).ediv (seg : Int)
+      else ((off / seg : Nat) : Int)) < ((numSegments old.length seg : Nat) : Int) := by
+    by_cases hX : off + data.length < old.length
+    · simp only [hX, if_true]
+      rcases Nat.eq_zero_or_pos (off + data.length) with h0 | h0
+      · have : ((((off + data.length : Nat) : Int) - 1).ediv (seg : Int)) < 0 := by
+          rw [h0]
+          show ((((0 : Nat) : Int) - 1) / (seg : Int)) < 0
+          exact Int.ediv_lt_of_lt_mul (by omega) (by omega)
+        have := Int.natCast_nonneg (numSegments old.length seg)
+        omega
+      · have hcast : (((off + data.length : Nat) : Int) - 1) = (((off + data.length - 1 : Nat)) : Int) := by omega
+        have hediv : (((off + data.length - 1 : Nat)) : Int).ediv (seg : Int)
+            = ((((off + data.length - 1) / seg : Nat)) : Int) := rfl
+        rw [hcast, hediv]
+        exact Int.ofNat_lt.mpr (div_lt_numSegments _ _ _ hseg (by omega))
+    · simp only [hX, if_false]
+      exact Int.ofNat_lt.mpr hstart
+  have hbs := boundarySegmentsFrom_spec (List.range cfg.k) old seg cfg.k (off / seg)
+    (if off + data.length < old.length then (((off + data.length : Nat) : Int) - 1).ediv (seg : Int)
+      else ((off / seg : Nat) : Int)) List.nodup_range hk (by simp)
+  have hg : ¬ ¬ (off / seg < numSegments old.length seg ∧
+      (if off + data.length < old.length then (((off + data.length : Nat) : Int) - 1).ediv (seg : Int)
+        else ((off / seg : Nat) : Int)) < ((numSegments old.length seg : Nat) : Int)) :=
+    fun hneg => hneg ⟨hstart, hEn⟩
+  rw [if_neg (Nat.ne_of_gt hpos), if_neg hg, hdS, hdE] at hbs
   simp only [mdmfUpdate, pubSegsize_mdmf, ← hsegv, Nat.ne_of_gt hseg, if_false, hoff, not_true_eq_false,
-    Nat.ne_of_gt hpos, hstart, updateRange, hdS, hdE]
+    updateRange, hbs]
   obtain ⟨s1, _, _⟩ := div_bounds off seg hseg
   obtain ⟨c, hc, hcn, hcX, hloop⟩ := updater_publisher_agree old data seg off hseg hpos hoff hstart
   rw [hc, hloop]
@@ -904,12 +1037,22 @@ theorem mdmfUpdate_ok_guard (cfg : Cfg) (v v' : Version) (off : Nat) (data : Byt
   · rw [if_neg h1] at h
     by_cases h2 : off ≤ v.content.length
     · rw [if_neg (by simpa using h2)] at h
-      by_cases h3 : v.content.length = 0
-      · rw [if_pos h3] at h; cases h
-      · rw [if_neg h3] at h
-        by_cases h4 : off / v.segsize < numSegments v.content.length v.segsize
-        · exact ⟨by omega, h2, h4⟩
-        · simp only [h4, not_false_eq_true, if_true] at h; cases h
+      -- the boundary-segment step succeeds only on a non-empty file whose start segment exists
+      rcases Nat.eq_zero_or_pos cfg.k with hk0 | hk0
+      · rw [hk0, List.range_zero, boundarySegmentsFrom_nil] at h
+        by_cases h3 : v.content.length = 0
+        · simp [h3] at h
+        · simp [h3] at h
+      · rw [boundarySegmentsFrom_spec (List.range cfg.k) v.content v.segsize cfg.k _ _ List.nodup_range hk0
+          (by simp)] at h
+        by_cases h3 : v.content.length = 0
+        · rw [if_pos h3] at h; cases h
+        · rw [if_neg h3] at h
+          by_cases h4 : off / v.segsize < numSegments v.content.length v.segsize
+          · exact ⟨by omega, h2, h4⟩
+          · exfalso
+            rw [if_pos (fun hc => h4 hc.1)] at h
+            simp at h
     · rw [if_pos h2] at h; cases h
 
 theorem step_spec (cfg : Cfg) (st st' : Option Version) (op : Op) (hk : 0 < cfg.k) (hm : 0 < cfg.maxSeg)
